@@ -127,7 +127,8 @@ def evaluate_wrap(ctx, spec, args, lines):
     nowrap = (nw if nw is not None else (tnw if tnw is not None else False)) or ov == "ignore"
     inp = (spec, args)
     ins = W.nonspace(W.input_stream(s, base, spans))
-    streams = [W.stream(l) for l in lines]
+    raws = [W.raw_stream(l) for l in lines]  # one real Text.render per line; the normalised stream is derived from it
+    streams = [r if isinstance(r, str) else [(c, W.norm_ids(ids)) for c, ids in r] for r in raws]
     bad_render = [x for x in streams if isinstance(x, str)]
     if bad_render:
         ctx.check(False, "wrap:style", inp, f"rendering a wrapped line raises {bad_render[0]}", finding=classify_style(eff_ov, eff_j, lines, w, bad_render[0], ins, True))
@@ -149,12 +150,70 @@ def evaluate_wrap(ctx, spec, args, lines):
         if okc:
             ok = W.embeds(out, ins)
             ctx.check(ok, "wrap:style", inp, f"output (char, style) stream {out!r} is not an in-order selection of the input's {ins!r}", finding=None if ok else classify_style(eff_ov, eff_j, lines, w, out, ins, False))
+    evaluate_exact(ctx, spec, args, raws, eff_j, (eff_ov == "fold" and not nowrap) or eff_ov == "ignore")
     if eff_ov != "ignore":
         wide = [l.plain for l in lines if cell_len(l.plain) > w]
         ctx.check(not wide, "wrap:lines-fit", inp, f"lines wider than {w} cells: {wide!r}")
     if eff_ov == "fold" and not nowrap and (ts is not None or "\t" not in s):
         ok, what = breaks_only_when_too_wide(s, ts, w, lines)
         ctx.check(ok, "wrap:break-only-when-too-wide", inp, what)
+
+
+def evaluate_exact(ctx, spec, args, raws, eff_j, keeps_all):
+    """The EXACT (name-list, no normal form) statement of wrap_fold_keeps_exact / wrap_fold_keeps_styles_exact_tabs /
+    wrapLine_fold_keeps_full_exact evaluated on rich's own lines, rendered through the real Text.render in the free
+    monoid of names.  Oracle (independent of the model and of rich's spans): a non-whitespace character at index i of
+    a paragraph (text between newlines) has the list  base, covering spans in span order;  the base style ONCE MORE IN
+    FRONT when its paragraph contains a tab;  and, for justify "full" only, possibly the null style '' in front of
+    that - uniformly for all characters of one produced line, and never on the very last produced line (the last line of a
+    paragraph is never rebuilt; a paragraph's last line may be blank, so only the overall last line is decidable here)."""
+    s, base, spans, tj, to, tnw, tts = spec
+    exp = []
+    pos = 0
+    for par in s.split("\n"):
+        tab = "\t" in par
+        for k, c in enumerate(par):
+            if not c.isspace():
+                ids = (base,) + tuple(st for a, b, st in spans if a <= pos + k < b)
+                exp.append((c, ((base,) + ids) if tab else ids))
+        pos += len(par) + 1
+    inp = (spec, args)
+    i = 0
+    ok = True
+    what = ""
+    for n, r in enumerate(raws):
+        marks = set()
+        for c, ids in W.nonspace(r):
+            if c == "…" and not keeps_all:
+                continue
+            while True:
+                if i == len(exp):
+                    ok, what = False, f"line {n}: {c!r} with styles {ids!r} is not (the next of) the input's characters"
+                    break
+                ec, eids = exp[i]
+                i += 1
+                if ec == c and ids == eids:
+                    marks.add(False)
+                    break
+                if ec == c and eff_j == "full" and ids == ("",) + eids:
+                    marks.add(True)
+                    break
+                if keeps_all:
+                    ok, what = False, f"line {n}: {c!r} has the style list {ids!r}, exact expectation {eids!r}" + (" (or '' in front)" if eff_j == "full" else "")
+                    break
+            if not ok:
+                break
+        if not ok:
+            break
+        if base != "" and len(marks) == 2:
+            ok, what = False, f"line {n} mixes characters with and without the null style in front: {r!r}"
+            break
+        if base != "" and n == len(raws) - 1 and True in marks:
+            ok, what = False, f"the last line {n} of the last paragraph was rebuilt by full justification: {r!r}"
+            break
+    if ok and keeps_all and i != len(exp):
+        ok, what = False, f"only {i} of the {len(exp)} non-whitespace characters are shown"
+    ctx.check(ok, "wrap:style-exact", inp, what)
 
 
 def _first_diff(out, ins):
@@ -218,7 +277,7 @@ def wrap_case(ctx, spec, args, shape=None):
     except Exception as e:  # noqa: BLE001
         ctx.case("wrap_wrap", req, "err:" + type(e).__name__, shape="raises")
         ok_raise = isinstance(e, ZeroDivisionError) and ts == 0 and "\t" in s
-        ok_raise = ok_raise or (isinstance(e, AssertionError) and ts is None and "\t" in s)
+        # (until fix 7535af5 an AssertionError was what the code did for tab_size=None on both the call and the Text; expand_tabs falls back to 8 now)
         ctx.check(ok_raise, "wrap:raises", (spec, args), f"Text.wrap raised {type(e).__name__}: {e}")
         return
     ctx.case(
@@ -233,6 +292,62 @@ def wrap_case(ctx, spec, args, shape=None):
     ctx.note(f"wrap:spans={len(spans)}")
     ctx.note(f"wrap:len={min(len(s), 10)}")
     evaluate_wrap(ctx, spec, args, lines)
+
+
+def narrow_case(ctx, spec, args):
+    """Width 1 - below the boundary of the keeps-characters theorems when the text has a 2-cell character.
+    Correspondence with the model as for every wrap, and direct evaluation of what the theorems say THERE:
+    wrap_lines_fit (every line <= 1 cell), and - folding, wrapping on - the non-whitespace characters shown are
+    the input's without the 2-cell ones, in order, each with its style (narrow_wide_first_cropped: a line that starts
+    with a 2-cell character becomes exactly one blank; every 2-cell character starts a piece of its own)."""
+    from rich.cells import cell_len
+
+    s, base, spans, tj, to, tnw, tts = spec
+    w, j, ov, ts, nw = args
+    t = build(spec)
+    req = [FLAGS, W.enc_text(t), w, W.J[j], W.O[ov], W.enc_opt(ts), W.enc_optbool(nw)]
+    inp = (spec, args)
+    try:
+        lines = list(t.wrap(W.FC, w, justify=j, overflow=ov, tab_size=ts, no_wrap=nw))
+    except BaseException as e:  # noqa: BLE001
+        ctx.case("wrap_wrap", req, "err:" + type(e).__name__, shape="narrow-raises")
+        ctx.check(False, "narrow:raises", inp, f"Text.wrap at width 1 raised {type(e).__name__}: {e}")
+        return
+    ctx.case("wrap_wrap", req, W.ans_texts(lines), shape="narrow", sample=f"Text({s!r}, spans={spans!r}).wrap(width=1, justify={j!r}, overflow={ov!r})")
+    eff_j = j or tj or "default"
+    eff_ov = ov or to or "fold"
+    nowrap = (nw if nw is not None else (tnw if tnw is not None else False)) or ov == "ignore"
+    ctx.note(f"narrow:ov={eff_ov}")
+    if eff_ov != "ignore":
+        wide = [l.plain for l in lines if cell_len(l.plain) > 1]
+        ctx.check(not wide, "narrow:lines-fit", inp, f"lines wider than 1 cell: {wide!r}")
+    if eff_ov == "fold" and not nowrap:
+        ins = [p for p in W.nonspace(W.input_stream(s, base, spans)) if cell_len(p[0]) < 2]
+        streams = [W.stream(l) for l in lines]
+        if any(isinstance(x, str) for x in streams):
+            ctx.check(False, "narrow:wide-dropped", inp, "rendering a line wrapped at width 1 raises")
+            return
+        out = W.nonspace([p for st in streams for p in st])
+        ctx.check(out == ins, "narrow:wide-dropped", inp, f"at width 1 the lines {[l.plain for l in lines]!r} show {out!r}; expected the input's non-whitespace characters without the 2-cell ones, {ins!r}")
+        # every line that held a 2-cell character is exactly one blank (left/center/right pad to the width: still one blank)
+        n_wide = sum(1 for c in s if cell_len(c) == 2 and not c.isspace())
+        blanks = sum(1 for l in lines if l.plain == " ")
+        ctx.check(blanks >= n_wide, "narrow:wide-becomes-blank", inp, f"{n_wide} 2-cell characters but only {blanks} one-blank lines in {[l.plain for l in lines]!r}")
+
+
+def narrow_truncate_case(ctx, s, ov, spans):
+    """narrow_wide_first_cropped evaluated on the real Text.truncate: a text that starts with a 2-cell character,
+    truncated to 1 cell, is exactly one blank (fold / crop) or exactly the ellipsis."""
+    from rich.text import Span, Text
+
+    t = Text(s, style="s4", spans=[Span(a, b, st) for a, b, st in spans])
+    try:
+        t.truncate(1, overflow=ov)
+        got = t.plain
+    except BaseException as e:  # noqa: BLE001
+        got = "err:" + type(e).__name__
+    ctx.check(got == ("…" if ov == "ellipsis" else " "), "narrow:crop-wide-first", (s, ov, spans), f"Text({s!r}).truncate(1, overflow={ov!r}) gives {got!r}")
+    ctx.check(not isinstance(W.stream(t), str), "narrow:crop-wide-first", (s, ov, spans), "the truncated text cannot be rendered")
 
 
 def divide_case(ctx, s, w, fold):
@@ -453,6 +568,12 @@ def real_case(ctx, s, base_i, spans_i, args):
         ctx.check(ok, "wrap:real-style", inp, "with real Style objects the rendered (char, Style) stream is not an in-order selection of the input's")
 
 
+def cell_len_is2(c):
+    from rich.cells import cell_len
+
+    return cell_len(c) == 2
+
+
 def gen_spec(rng, s, kmax=2, attrs=True):
     base = rng.choice(["", "", "s4", "s1"])
     spans = gen_spans(rng, len(s), kmax)
@@ -644,6 +765,23 @@ def run(ctx):
             wrap_case(ctx, spec, (rng.choice([2, 7, 20, 50, 79, 80, 120, 199, 200, rng.randint(2, 200)]), j, ov, ts, nw), shape="long")
         ctx.flush()
 
+    # ---- 4e. width 1 (below the boundary when a 2-cell character is present): every string <= 4 (quick) / 5 over
+    #          {a, あ, space, U+0300, 、}, justify / overflow / no_wrap interleaved by seed; and the crop theorem on Text.truncate
+    nalpha = ["a", "あ", " ", "̀"] if quick else ["a", "あ", " ", "̀", "、"]
+    for s in all_strings(nalpha, 4 if quick else 5, 1):
+        spans = gen_spans(rng, len(s), 2)
+        j = rng.choice(JUSTIFY)
+        narrow_case(ctx, (s, rng.choice(["", "s4"]), spans, None, None, None, 8), (1, j, None, 8, None))
+        if rng.random() < 0.4:
+            narrow_case(ctx, (s, "s4", spans, None, None, None, 8), (1, rng.choice(JUSTIFY), rng.choice(["crop", "ellipsis", "ignore", "fold"]), 8, rng.choice(NOWRAP)))
+        if cell_len_is2(s[0]):
+            for ov in ("fold", "crop", "ellipsis"):
+                narrow_truncate_case(ctx, s, ov, spans)
+    for _ in range(60 if quick else 20000):
+        s = gen_prose(rng, rng.randint(3, 20))
+        narrow_case(ctx, gen_spec(rng, s, kmax=3, attrs=False), (1, rng.choice(JUSTIFY), rng.choice([None, None, "fold", "crop", "ellipsis"]), rng.choice([1, 2, 8]), rng.choice([None, None, False, True])))
+    ctx.flush()
+
     # ---- 5. Lines.justify and get_style_at_offset on their own (lines that wrap itself never produces included)
     n5 = 6000 if quick else 120000
     jalpha = ["a", "b", " ", " ", "あ", "̀", "　"]
@@ -669,6 +807,13 @@ def replay(ctx, case):
         spec, calls = inp
         spec = (spec[0], spec[1], [tuple(x) for x in spec[2]], *spec[3:])
         history_case(ctx, spec, [tuple(c) for c in calls], random.Random(case.get("seed", 0)))
+    elif site == "narrow:crop-wide-first":
+        s, ov, spans = inp
+        narrow_truncate_case(ctx, s, ov, [tuple(x) for x in spans])
+    elif site.startswith("narrow:"):
+        spec, args = inp
+        spec = (spec[0], spec[1], [tuple(x) for x in spec[2]], *spec[3:])
+        narrow_case(ctx, spec, tuple(args))
     elif site.startswith("wrap:"):
         spec, args = inp
         spec = (spec[0], spec[1], [tuple(x) for x in spec[2]], *spec[3:])
@@ -721,7 +866,25 @@ MANIFEST = {
         "same Text object is wrapped 2-4 times (same / different width, justify, overflow), the model is asked with the "
         "state recorded before the first call, and after every call and after editing a returned line (pad, crop, "
         "stylize, append) the receiver (plain, _length, spans, attributes, rendering) and every earlier returned line "
-        "are re-observed and must be unchanged."
+        "are re-observed and must be unchanged.  "
+        "DEEPENING 4 (exact forms, 13 more theorems, 42 in all): the name-list equality is now proved where wrap itself adds "
+        "style names - expandTabs_exact / wrap_fold_keeps_styles_exact_tabs (a paragraph with a tab: every character carries "
+        "the base style once more IN FRONT of base + spans, nothing else; any tab size >= 1), wrapLine_fold_keeps_full_exact / "
+        "fullMark_chars (justify full: the characters of every line of a paragraph but the last carry the null style of "
+        "Text('') in front, those of the last line exactly their list), wrap_fold_keeps_exact (whole Text.wrap, every justify "
+        "mode, tabs: both marks composed, no normal form), justify_full_line_exact / full_blank_style (the complete styled "
+        "string of a rebuilt line incl. the inserted blanks: each blank carries null + ONE style - the Style its two "
+        "neighbours share under Style.__eq__, else the line's base style), witnesses tabs_exact_form_fails / "
+        "full_exact_form_fails (why the unmarked equality is false there); narrow_wide_first_cropped (below the boundary as a "
+        "theorem: at width 1 a line that starts with a 2-cell character is cropped to exactly one blank - fold, crop - or "
+        "exactly the ellipsis, for every width function / rest of line / span set); truncate_line_fits (Text.truncate with "
+        "pad on or off fits, every overflow but ignore), divideLine_offsets_any_width (fold on or off, any width: ascending "
+        "offsets inside the text).  Direct evaluation on real rich added: wrap:style-exact (the exact name lists through the "
+        "real Text.render in the free monoid - base style in front for tab paragraphs, '' in front only under full, uniformly "
+        "per line, never on the last line - on every generated wrap and history call), and a width-1 generator (every string "
+        "<= 4 over {a, 2-cell, space, 0-cell}, prose, all justify / overflow / no_wrap): correspondence wrap_wrap at width 1, "
+        "narrow:lines-fit, narrow:wide-dropped (the ink is the input's without the 2-cell characters, styles kept), "
+        "narrow:wide-becomes-blank, narrow:crop-wide-first (the theorem on the real Text.truncate)."
     ),
     "note": (
         "boundary (theorems, not comments): everything that keeps characters needs 'every character fits a line' "
@@ -736,8 +899,13 @@ MANIFEST = {
         "preserved); a slice of the correspondence and of the direct evaluation runs with real Style objects (bold, "
         "italic, colours, links, equal styles built differently) so real __add__, copy and __eq__ are exercised.  "
         "partial: (1) because Text.expand_tabs re-applies the base style and Text('').join puts the null style in front, "
-        "the headline theorem compares effective styles in a normal form (null erased, adjacent repetitions merged) - "
-        "exact equality is proved for tab-free texts with justify other than full; (2) the every-overflow-mode statements "
+        "the headline theorem compares effective styles in a normal form (null erased, adjacent repetitions merged); the "
+        "exact form is now also proved for tabs and justify full as 'marked' equalities (wrap_fold_keeps_exact: which "
+        "characters get which extra name in front), overflow fold only; (1b) narrow_wide_first_cropped is about the crop of a "
+        "line that starts with the wide character; that at width 1 every 2-cell character starts a piece of its own is "
+        "shown by evaluation (narrow_wide_character_lost) and by the width-1 harness cases, not proved in general; (1c) "
+        "purity / no aliasing of the real Text.wrap stays a checked (history cases), not a proved, fact - the model has no "
+        "heap; exact width of Lines.justify left/center/right is evaluated (justify:exact-width), not a theorem; (2) the every-overflow-mode statements "
         "(wrapLine_style_preserved for justify default/left/center/right: blanks + prefix of the piece + blanks/ellipsis; "
         "wrapLine_style_preserved_full for justify full: the non-whitespace characters shown are a prefix of the piece's, "
         "with their styles modulo the null style, between ellipses) are per paragraph after tab expansion; all theorems "
@@ -748,8 +916,8 @@ MANIFEST = {
         "involved; in the direct evaluation equality is up to the laws every rich Style satisfies ('' neutral, x+x = x, "
         "x+y+x = y+x) because tab expansion and full justification re-apply the base style; (4) the whitespace class is "
         "the running Python's str.isspace (generated table); the generated Text.wrap / Lines.justify cases use widths "
-        "2..200 (divide_line is also compared at width 1, on strings of length <= 4; width 1 and 0 of Text.wrap are "
-        "theorems only: width_one_single_cells, narrow_*); negative widths, control characters (C05) and inverted spans "
+        "2..200, plus the width-1 generator of deepening 4 (divide_line is also compared at width 1, on strings of length <= 4; "
+        "width 0 of Text.wrap is a theorem only: narrow_width_zero_ellipsis); negative widths, control characters (C05) and inverted spans "
         "are outside the statement.  Variant flags (all at the repaired value): FLAGS = the six Text flags of props.c05 "
         "(CTOR_LEN, CROP_ENDS, STYLIZE_NEG, GETITEM, DIVIDE_ORDER, ALIGN_NEG = 0 each) + JUSTIFY_NEG = 0 + "
         "RSTRIP_END_CHARS = 0, i.e. '00000000'.  known_findings.txt has no open (known:) finding for C02, so a clean run "
